@@ -106,6 +106,7 @@ let run_w ids npool wops_s =
         | ["Br2"] -> WBusRemove2, None
         | ["SbB"; i] -> WSetBuilderB (nat i), None
         | ["Sb"; i] -> WSetBuilder (nat i), None
+        | ["SbN"] -> WSetBuilderNil, None
         | _ -> failwith ("bad wop " ^ tok) in
       let flag = match edit_flag with
         | Some f -> f
@@ -133,7 +134,7 @@ let () =
         | ["B"; e; t; obs] -> obs, run_b e t
         | ["W"; ids; np; ops; obs; l] ->
           let mobs, mloaded = run_w ids np ops in
-          if l = "L=skip" || l = "L=default-builder-edits-not-saved" then obs, mobs
+          if l = "L=skip" then obs, mobs
           else obs ^ ";" ^ l, mobs ^ ";L=" ^ mloaded
         | ["W"; ids; np; ops; obs] -> obs, fst (run_w ids np ops)
         | ["D"; obs] -> obs, ops_str default_ops
